@@ -1,6 +1,7 @@
 import GV.Driver.Common
 import GV.Model.Ctrlflow
 import GV.Model.Cache
+import GV.Model.Protocol
 open GV GV.Ctrlflow
 namespace GV.Driver
 
@@ -38,6 +39,12 @@ def cfOps : Handler := fun st f =>
     let ds := if deps == "-" then [] else (deps.splitOn ",").map unhex
     let h := fun (b : List UInt8) => toHex (GV.Sha256.sumList b)
     some (st, " ".intercalate [h (GV.Cache.pkgCachePre g ds), h (GV.Cache.goAsmPre g), h (GV.Cache.debugPre g (unhex kc)), h (GV.Cache.debugPre g (unhex ka))])
+  -- linkreusem stamp|none size|-1 goVersion patchesVer ; linkstampm size goVersion patchesVer
+  | ["linkreusem", stamp, size, gv, pv] =>
+    let stp : Option (List UInt8) := if stamp == "none" then none else some (unhex stamp)
+    let sz : Option Nat := if size == "-1" then none else some size.toNat!
+    some (st, if GV.Protocol.reusable stp sz (unhex gv) (unhex pv) then "1" else "0")
+  | ["linkstampm", size, gv, pv] => some (st, toHex (GV.Protocol.stampFor (unhex gv) (unhex pv) size.toNat!))
   | _ => none
 
 end GV.Driver
